@@ -1,428 +1,7 @@
-(* ExtractedOk.v — the definitions that /verif/xlate regenerates from the
-   repository's CURRENT source on every run (theories/Extracted.v) are equal to
-   the hand-written model's.  These lemmas are the translator-based half of the
-   tie between model and code: an edit to one of the translated pieces of Rust
-   changes Extracted.v and breaks the corresponding lemma (or, if the code
-   leaves the supported subset, the extraction and with it the lemma). *)
-From XcpModel Require Import Base Extents Blocks Sparse CopyLoop FileCopy Updater Meta Backup Extracted.
-From Coq Require Import String.
-From Coq Require Import Lia.
-
-(* ---- libfs::merge_extents: the translated loop is the model's recursion ---- *)
-Definition merge_final (st : list extent * option extent) : list extent :=
-  let '(merged, prev) := st in match prev with Some p => merged ++ [p] | None => merged end.
-
-Theorem x_merge_extents_ok : forall l, x_merge_extents l = merge_extents l.
-Proof.
-  intros l. unfold x_merge_extents.
-  match goal with |- context [fold_left ?F _ _] => set (F0 := F) end.
-  assert (forall st, (let '(merged, prev) := st in
-                      let '(merged0, _) := match prev with Some p => (merged ++ [p], prev) | None => (merged, prev) end in merged0)
-                     = merge_final st) as Hfin.
-  { intros [m [p|]]; reflexivity. }
-  assert (forall l merged p, merge_final (fold_left F0 l (merged, Some p)) = merged ++ merge_go p l) as Hgo.
-  { clear. intros l. induction l as [|e r IH]; intros merged p; cbn [fold_left merge_go].
-    - reflexivity.
-    - subst F0. cbv beta iota zeta. fold (fold_left (A := list extent * option extent)).
-      destruct (e_start e =? e_end p + 1).
-      + apply IH.
-      + rewrite IH. rewrite <- app_assoc. reflexivity. }
-  destruct l as [|e r]; [reflexivity|].
-  cbn [fold_left merge_extents].
-  transitivity (merge_final (fold_left F0 r (F0 ([], None) e))).
-  - destruct (fold_left F0 r (F0 ([], None) e)) as [m [p|]]; reflexivity.
-  - assert (F0 ([], None) e = ([], Some e)) as -> by (subst F0; reflexivity).
-    rewrite Hgo. reflexivity.
-Qed.
-
-(* ---- parblock::queue_file_range: block count, size and offset of block k ---- *)
-Theorem x_qfr_blocks_ok : forall s e bs, x_qfr_blocks s e bs = nblocks (e - s) bs.
-Proof. reflexivity. Qed.
-Theorem x_qfr_bytes_ok : forall s e bs k, x_qfr_bytes s e bs k = blk_bytes (e - s) bs k.
-Proof. reflexivity. Qed.
-Theorem x_qfr_off_ok : forall s e bs k, x_qfr_off s e bs k = blk_off s bs k.
-Proof. reflexivity. Qed.
-Theorem x_qfr_jobs_ok : forall s e bs,
-  range_jobs s (e - s) bs =
-  map (fun k => (x_qfr_off s e bs (N.of_nat k), x_qfr_bytes s e bs (N.of_nat k))) (seq 0 (N.to_nat (x_qfr_blocks s e bs))).
-Proof. reflexivity. Qed.
-
-(* the pool's bounded queue: the Q of the C20 bound *)
-Theorem x_pool_queue_len_ok : x_pool_queue_len = 128.
-Proof. reflexivity. Qed.
-
-(* ---- ChannelUpdater::send ---- *)
-Theorem x_send_cond_ok : forall bs sent b,
-  chan_send bs sent (UCopied b) = (sent + b, if x_send_cond sent b bs then [UCopied b] else []).
-Proof. reflexivity. Qed.
-
-(* ---- CopyHandle::copy_bytes: loop guard and request size ---- *)
-Theorem x_copy_bytes_continue_ok : forall written len, x_copy_bytes_continue written len = negb (len <=? written).
-Proof. intros. unfold x_copy_bytes_continue. destruct (N.ltb_spec written len), (N.leb_spec len written); try reflexivity; lia. Qed.
-Theorem x_copy_bytes_request_ok : forall written len bs, x_copy_bytes_request written len bs = N.min (len - written) bs.
-Proof. reflexivity. Qed.
-
-(* ---- libfs: sparseness test, errno classifications, FIEMAP page size ---- *)
-Theorem x_probably_sparse_ok : forall blocks size, x_probably_sparse blocks size = probably_sparse blocks size.
-Proof. reflexivity. Qed.
-
-Ltac errno_cases e :=
-  repeat match goal with |- context [N.eqb e ?k] => destruct (N.eqb_spec e k) end; subst; try reflexivity; try discriminate; try lia.
-
-Theorem x_cfr_fallback_ok : forall e, existsb (N.eqb e) x_cfr_fallback_errnos = cfr_falls_back e.
-Proof. intros e. unfold x_cfr_fallback_errnos, cfr_falls_back, ENOSYS, EPERM, EXDEV. cbn [existsb]. errno_cases e. Qed.
-
-Theorem x_reflink_unsupported_ok : forall e, e <> 0 ->
-  existsb (N.eqb e) x_reflink_unsupported_errnos = match classify_clone e with ClUnsup => true | _ => false end.
-Proof.
-  intros e He. unfold x_reflink_unsupported_errnos, classify_clone, EOPNOTSUPP, EINVAL, EXDEV, ETXTBSY. cbn [existsb].
-  destruct (N.eqb_spec e 0); [contradiction|]. errno_cases e.
-Qed.
-
-Theorem x_lseek_eof_ok : x_lseek_eof_errnos = [ENXIO].
-Proof. reflexivity. Qed.
-Theorem x_fiemap_unsupported_ok : x_fiemap_unsupported_errnos = [EOPNOTSUPP].
-Proof. reflexivity. Qed.
-Theorem x_fiemap_page_size_ok : x_fiemap_page_size = N.of_nat FIEMAP_PAGE_SIZE.
-Proof. reflexivity. Qed.
-
-(* copy_node takes the device number from st_rdev *)
-Theorem x_copy_node_uses_rdev_ok : x_copy_node_uses_rdev = 1.
-Proof. reflexivity. Qed.
-
-(* ---- finalise_copy: the steps, their guards and their order ---- *)
-Definition step_enabled (c : fin_cfg) (s : N * bool) : bool :=
-  let flag := if fst s =? 6 then c_ownership c else if fst s =? 8 then c_no_perms c
-              else if fst s =? 9 then c_no_timestamps c else c_fsync c in
-  xorb (snd s) flag.
-Definition actions_of_step (k : N) (src : meta) : list fin_action :=
-  if k =? 6 then [FChown (m_uid src) (m_gid src)]
-  else if k =? 8 then map (fun kv => FSetxattr (fst kv) (snd kv)) (m_xattr src) ++ [FChmod (m_mode src)]
-  else if k =? 9 then [FUtimens (m_atime src) (m_mtime src)]
-  else [FFsync].
-
-(* the model's finalise_actions is: run the extracted steps, in the extracted
-   order, each under its extracted guard *)
-Theorem x_finalise_order_ok : forall c src,
-  finalise_actions c src =
-  flat_map (fun s => if step_enabled c s then actions_of_step (fst s) src else []) x_finalise_order.
-Proof.
-  intros [np nt ow fs] src. unfold finalise_actions, x_finalise_order, step_enabled, actions_of_step.
-  cbn [flat_map fst snd c_no_perms c_no_timestamps c_ownership c_fsync].
-  repeat match goal with |- context [N.eqb ?a ?b] =>
-           let v := eval vm_compute in (N.eqb a b) in change (N.eqb a b) with v end.
-  destruct ow, np, nt, fs; cbn [xorb app]; rewrite ?app_nil_r, <- ?app_assoc; reflexivity.
-Qed.
-
-(* ---- Config::from: --no-progress selects one block per file (u64::MAX) ---- *)
-Theorem x_config_block_size_ok : forall bs,
-  x_config_block_size true bs = U64MAX /\ x_config_block_size false bs = bs.
-Proof. intros. split; reflexivity. Qed.
-
-(* ---- backup.rs: the next number is the largest existing one plus one (0 when none) ---- *)
-Theorem x_next_backup_ok : forall base entries,
-  next_backup_num base entries =
-  (let n := x_next_backup_from_max (fold_right N.max x_backup_max_default (backup_nums base entries)) in
-   if n <? U64 then Some n else None).
-Proof. reflexivity. Qed.
-
-Theorem x_backup_pattern_ok : x_backup_pattern = "^\~(\d+)\~$"%string.
-Proof. reflexivity. Qed.
-
-(* ---- CopyHandle::try_reflink: the decision table ---- *)
-Definition rl_code (o : rl_out) : N := match o with RlCloned => 1 | RlCopy => 0 | RlFail _ => 2 end.
-Definition mode_of_code (m : N) : reflink_mode := if m =? 0 then RfAuto else if m =? 1 then RfAlways else RfNever.
-
-Theorem x_try_reflink_ok : forall m, m < 3 ->
-  fst (try_reflink (mode_of_code m) ClOk) = x_try_reflink_issues_clone m /\
-  rl_code (snd (try_reflink (mode_of_code m) ClOk)) = x_try_reflink m true /\
-  rl_code (snd (try_reflink (mode_of_code m) ClUnsup)) = x_try_reflink m false /\
-  (forall e, rl_code (snd (try_reflink (mode_of_code m) (ClErr e))) = if x_try_reflink_issues_clone m then 2 else 0).
-Proof.
-  intros m Hm. assert (m = 0 \/ m = 1 \/ m = 2) as H by lia.
-  destruct H as [H|[H|H]]; subst m; repeat split; reflexivity.
-Qed.
-
-(* ---- needs_backup: the decision table ---- *)
-Theorem x_needs_backup_ok : forall mode ex base entries, mode < 3 ->
-  needs_backup mode ex base entries = x_needs_backup mode ex (has_backup base entries).
-Proof.
-  intros mode ex base entries Hm. assert (mode = 0 \/ mode = 1 \/ mode = 2) as H by lia.
-  destruct H as [H|[H|H]]; subst mode; unfold needs_backup, x_needs_backup;
-    repeat match goal with |- context [N.eqb ?a ?b] => let v := eval vm_compute in (N.eqb a b) in change (N.eqb a b) with v end;
-    cbn [andb]; destruct ex; reflexivity.
-Qed.
-
-(* ---- Operation::Special in both drivers ---- *)
-Definition special_code (r : option (list sp_action)) : N :=
-  match r with None => 0 | Some [SpMknod _] => 1 | Some [SpUnlink; SpMknod _] => 2 | Some _ => 3 end.
-
-Theorem x_special_ok : forall nc ex umask src,
-  special_code (special_worker nc ex umask src) = x_parfile_special nc ex /\
-  special_code (special_worker nc ex umask src) = x_parblock_special nc ex.
-Proof. intros [|] [|] umask src; split; reflexivity. Qed.
-
-(* ---- call order of CopyHandle::new, copy_file and queue_file_blocks ---- *)
-From XcpModel Require Import Walker Ops.
-Theorem x_copy_new_steps_ok : x_copy_new_steps = copy_new_steps.
-Proof. reflexivity. Qed.
-Theorem x_copy_file_steps_ok : x_copy_file_steps = copy_file_steps.
-Proof. reflexivity. Qed.
-Theorem x_queue_file_blocks_steps_ok : x_queue_file_blocks_steps = queue_file_blocks_steps.
-Proof. reflexivity. Qed.
-
-(* ... and the model's CopyHandle::new (the prefix of Ops.copy_actions, overwrite with a backup) issues its
-   system calls in exactly that order: the extracted steps minus the ones that are not system calls of their
-   own (23 shares the probe's stat, 24 decides, 98 returns) *)
-Theorem copy_new_steps_model : forall fc src dst n len,
-  flat_map step_code_of (fst (copy_actions fc src dst (mkEnv true false (Some n) len false false [] 0))) =
-  filter (fun c => negb ((c =? 23) || (c =? 24) || (c =? 98))) x_copy_new_steps.
-Proof.
-  intros [np nt ow fs] src dst n len. unfold copy_actions. cbn [ce_dst_exists ce_same_file andb].
-  destruct ow, np, nt, fs; vm_compute; reflexivity.
-Qed.
-
-(* ---- the block job of parblock: one unfolding of CopyLoop.block_job in terms of the extracted expressions ---- *)
-Theorem x_block_job_ok : forall f flen off bytes done k rest,
-  block_job (S f) flen off bytes done (XOk k :: rest) =
-  let req := mkReq (x_block_job_offset off done) (x_block_job_offset off done) (x_block_job_request bytes done) in
-  if k =? 0 then mkOut (if x_block_job_zero_is_end flen off done then StOk else StErr EPREMATURE) [(req, XOk 0)] rest
-  else if x_block_job_complete (done + k) bytes then mkOut StOk [(req, XOk k)] rest
-  else out_cons (req, XOk k) (block_job f flen off bytes (done + k) rest).
-Proof. reflexivity. Qed.
-
-(* ------------------------------------------------------------------ *)
-(* the translated effectful loops equal the hand-written models          *)
-(* ------------------------------------------------------------------ *)
-From XcpModel Require Import Uspace.
-
-Definition out_app (tr : xtrace) (o : loop_out) : loop_out := mkOut (o_st o) (tr ++ o_trace o) (o_rest o).
-
-Lemma x_copy_bytes_loop_ok : forall fuel len bs written cur tr ans,
-  x_copy_bytes_loop fuel len bs written cur tr ans = out_app tr (copy_bytes fuel bs len written cur ans).
-Proof.
-  induction fuel as [|f IH]; intros len bs written cur tr ans.
-  - cbn [x_copy_bytes_loop copy_bytes]. destruct (N.ltb_spec written len), (N.leb_spec len written); try lia;
-      unfold out_app; cbn [o_st o_trace o_rest]; now rewrite app_nil_r.
-  - cbn [x_copy_bytes_loop copy_bytes]. destruct (N.ltb_spec written len), (N.leb_spec len written); try lia;
-      [|unfold out_app; cbn [o_st o_trace o_rest]; now rewrite app_nil_r].
-    destruct ans as [|[k|e] rest]; unfold out_app; cbn [o_st o_trace o_rest].
-    + now rewrite app_nil_r.
-    + destruct (N.eqb_spec k 0) as [->|Hk]; cbn [o_st o_trace o_rest]; [reflexivity|].
-      rewrite IH. unfold out_app, out_cons. cbn [o_st o_trace o_rest]. now rewrite <- app_assoc.
-    + reflexivity.
-Qed.
-
-Theorem x_copy_bytes_ok : forall fuel bs len cur ans,
-  x_copy_bytes fuel len bs cur ans = copy_bytes fuel bs len 0 cur ans.
-Proof.
-  intros. unfold x_copy_bytes. rewrite x_copy_bytes_loop_ok. unfold out_app. cbn [app].
-  destruct (copy_bytes fuel bs len 0 cur ans); reflexivity.
-Qed.
-
-Ltac fin := rewrite <- ?app_assoc; cbn [app]; reflexivity.
-
-Lemma u_app_nil o : u_app [] o = o.
-Proof. destruct o; reflexivity. Qed.
-Lemma u_app_app a b o : u_app a (u_app b o) = u_app (a ++ b) o.
-Proof. unfold u_app. cbn [u_st u_ret u_trace u_rest]. now rewrite app_assoc. Qed.
-
-Lemma x_copy_range_uspace_loop_ok : forall fuel nbytes off written tr ans,
-  x_copy_range_uspace_loop fuel nbytes off written tr ans = u_app tr (copy_range_uspace fuel nbytes off written ans).
-Proof.
-  induction fuel as [|f IH]; intros nbytes off written tr ans.
-  - cbn [x_copy_range_uspace_loop copy_range_uspace]. destruct (N.ltb_spec written nbytes), (N.leb_spec nbytes written); try lia;
-      unfold u_app; cbn [u_st u_ret u_trace u_rest]; now rewrite app_nil_r.
-  - cbn [x_copy_range_uspace_loop copy_range_uspace]. destruct (N.ltb_spec written nbytes), (N.leb_spec nbytes written); try lia;
-      [|unfold u_app; cbn [u_st u_ret u_trace u_rest]; now rewrite app_nil_r].
-    replace (N.min (nbytes - written) nbytes) with (nbytes - written) by lia.
-    destruct ans as [|[rlen|e] rest]; unfold u_app at 1; cbn [u_st u_ret u_trace u_rest].
-    + now rewrite app_nil_r.
-    + destruct (N.eqb_spec rlen 0) as [->|Hr]; cbn [u_st u_ret u_trace u_rest]; [reflexivity|].
-      destruct rest as [|[wlen|e] rest']; cbn [u_st u_ret u_trace u_rest].
-      * fin.
-      * destruct (N.ltb_spec wlen rlen); cbn [u_st u_ret u_trace u_rest]; [fin|].
-        rewrite IH. unfold u_app. cbn [u_st u_ret u_trace u_rest]. fin.
-      * fin.
-    + reflexivity.
-Qed.
-
-Theorem x_copy_range_uspace_ok : forall fuel nbytes off ans,
-  x_copy_range_uspace fuel nbytes off ans = copy_range_uspace fuel nbytes off 0 ans.
-Proof. intros. unfold x_copy_range_uspace. rewrite x_copy_range_uspace_loop_ok. apply u_app_nil. Qed.
-
-Lemma x_copy_bytes_uspace_loop_ok : forall fuel nbytes written rpos wpos tr ans,
-  x_copy_bytes_uspace_loop fuel nbytes written rpos wpos tr ans =
-  u_app tr (copy_bytes_uspace fuel nbytes rpos wpos written ans).
-Proof.
-  induction fuel as [|f IH]; intros nbytes written rpos wpos tr ans.
-  - cbn [x_copy_bytes_uspace_loop copy_bytes_uspace]. destruct (N.ltb_spec written nbytes), (N.leb_spec nbytes written); try lia;
-      unfold u_app; cbn [u_st u_ret u_trace u_rest]; now rewrite app_nil_r.
-  - cbn [x_copy_bytes_uspace_loop copy_bytes_uspace]. destruct (N.ltb_spec written nbytes), (N.leb_spec nbytes written); try lia;
-      [|unfold u_app; cbn [u_st u_ret u_trace u_rest]; now rewrite app_nil_r].
-    replace (N.min (nbytes - written) nbytes) with (nbytes - written) by lia.
-    destruct ans as [|[len|e] rest].
-    + unfold u_app; cbn [u_st u_ret u_trace u_rest]. now rewrite app_nil_r.
-    + destruct (N.eqb_spec len 0) as [->|Hl]; [unfold u_app; cbn [u_st u_ret u_trace u_rest]; reflexivity|].
-      destruct (u_st (write_all (S (List.length rest)) rpos wpos len rest)) eqn:Ew.
-      * rewrite IH. unfold u_app. cbn [u_st u_ret u_trace u_rest]. fin.
-      * unfold u_app; cbn [u_st u_ret u_trace u_rest]. fin.
-      * unfold u_app; cbn [u_st u_ret u_trace u_rest]. fin.
-      * unfold u_app; cbn [u_st u_ret u_trace u_rest]. fin.
-    + destruct (N.eqb_spec e EINTR) as [->|He].
-      * rewrite IH. unfold u_cons, u_app. cbn [u_st u_ret u_trace u_rest]. fin.
-      * unfold u_app; cbn [u_st u_ret u_trace u_rest]. reflexivity.
-Qed.
-
-Theorem x_copy_bytes_uspace_ok : forall fuel nbytes rpos wpos ans,
-  x_copy_bytes_uspace fuel nbytes rpos wpos ans = copy_bytes_uspace fuel nbytes rpos wpos 0 ans.
-Proof. intros. unfold x_copy_bytes_uspace. rewrite x_copy_bytes_uspace_loop_ok. apply u_app_nil. Qed.
-
-(* the block fallback reads and writes at explicit offsets (pread/pwrite): concurrent block jobs of one file
-   share the two descriptors, so nothing may go through their cursors *)
-Theorem x_positional_io_ok : x_read_bytes_steps = [50] /\ x_write_bytes_steps = [51].
-Proof. split; reflexivity. Qed.
-
-(* CopyHandle::copy_sparse (the parfile sparse walk): next_sparse_segments and copy_bytes are the modelled helpers *)
-Lemma x_copy_sparse_loop_ok : forall fuel sd sh flen bs pos tr ans,
-  x_copy_sparse_loop fuel sd sh flen bs flen pos tr ans = out_app tr (copy_sparse fuel bs flen pos sd sh ans).
-Proof.
-  induction fuel as [|f IH]; intros sd sh flen bs pos tr ans.
-  - cbn [x_copy_sparse_loop copy_sparse]. destruct (N.ltb_spec pos flen), (N.leb_spec flen pos); try lia;
-      unfold out_app; cbn [o_st o_trace o_rest]; now rewrite app_nil_r.
-  - cbn [x_copy_sparse_loop copy_sparse]. destruct (N.ltb_spec pos flen), (N.leb_spec flen pos); try lia;
-      [|unfold out_app; cbn [o_st o_trace o_rest]; now rewrite app_nil_r].
-    destruct (next_segment sd sh flen pos) as [[d h]|e]; [|unfold out_app; cbn [o_st o_trace o_rest]; now rewrite app_nil_r].
-    change (CopyLoop.out_app) with CopyLoop.out_app.
-    destruct ((h <=? pos) || (h <? d)); [unfold out_app; cbn [o_st o_trace o_rest]; now rewrite app_nil_r|].
-    destruct (copy_bytes (S (List.length ans)) bs (h - d) 0 d ans) as [st t r] eqn:Ec. cbn [o_st o_trace o_rest].
-    destruct st; try (unfold out_app; cbn [o_st o_trace o_rest]; reflexivity).
-    rewrite IH. unfold out_app, CopyLoop.out_app. cbn [o_st o_trace o_rest]. now rewrite app_assoc.
-Qed.
-
-Theorem x_copy_sparse_ok : forall fuel sd sh flen bs ans,
-  x_copy_sparse fuel sd sh flen bs ans = copy_sparse fuel bs flen 0 sd sh ans.
-Proof.
-  intros. unfold x_copy_sparse. rewrite x_copy_sparse_loop_ok. unfold out_app. cbn [app].
-  destruct (copy_sparse fuel bs flen 0 sd sh ans); reflexivity.
-Qed.
-
-(* libfs::next_sparse_segments *)
-Theorem x_next_segment_ok : forall sd sh len pos, x_next_segment sd sh len pos = next_segment sd sh len pos.
-Proof.
-  intros. unfold x_next_segment, next_segment. destruct (sd pos) as [o| |e]; reflexivity.
-Qed.
-
-(* libfs::map_extents: the translated paging loop is the model's *)
-Lemma fold_push_ext (pg : list fext) : forall acc,
-  fold_left (fun extents e => extents ++ [mkExt (fe_logical e) (fe_logical e + fe_length e) (fe_shared e)]) pg acc =
-  acc ++ map to_ext pg.
-Proof.
-  induction pg as [|x pg IH]; intros acc; cbn [fold_left map]; [now rewrite app_nil_r|].
-  rewrite IH. rewrite <- app_assoc. reflexivity.
-Qed.
-
-Lemma nth_error_last {A} (l : list A) (d : A) : l <> [] -> nth_error l (List.length l - 1) = Some (last l d).
-Proof.
-  induction l as [|x l IH]; intros H; [contradiction|]. destruct l as [|y l]; [reflexivity|].
-  cbn [List.length]. replace (S (S (List.length l)) - 1)%nat with (S (List.length (y :: l) - 1)) by (cbn [List.length]; lia).
-  cbn [nth_error]. rewrite IH by discriminate. reflexivity.
-Qed.
-
-Theorem x_map_extents_go_ok : forall fuel fiemap start acc,
-  x_map_extents_go fuel fiemap start acc = map_extents_go fuel fiemap start acc.
-Proof.
-  induction fuel as [|f IH]; intros fiemap start acc; [reflexivity|].
-  cbn [x_map_extents_go map_extents_go]. destruct (fiemap start) as [|e|pg]; try reflexivity.
-  destruct pg as [|x pg]; [reflexivity|].
-  replace (N.of_nat (List.length (x :: pg)) =? 0) with false by (symmetry; apply N.eqb_neq; cbn [List.length]; lia).
-  rewrite (nth_error_last (x :: pg) x) by discriminate.
-  change (fun extents e => let ext := mkExt (fe_logical e) (fe_logical e + fe_length e) (fe_shared e) in extents ++ [ext])
-    with (fun extents e => extents ++ [mkExt (fe_logical e) (fe_logical e + fe_length e) (fe_shared e)]).
-  rewrite fold_push_ext. destruct (fe_last (last (x :: pg) x)); [reflexivity|]. apply IH.
-Qed.
-
-Theorem x_map_extents_ok : forall fuel fiemap, x_map_extents fuel fiemap = map_extents fuel fiemap.
-Proof. intros. apply x_map_extents_go_ok. Qed.
-
-(* ---- operations::tree_walker ---- *)
-From XcpModel Require Import Paths.
-Definition wact_code (a : wact) : N :=
-  match a with WSize _ => 0 | WCopy _ _ => 1 | WLink _ _ => 2 | WMkdir _ => 3 | WSpecial _ _ => 4 | WErr _ _ => 5 end.
-Definition kind_of_ft (ft : N) : ekind :=
-  if ft =? 0 then EFile 0 else if ft =? 1 then EDir else if ft =? 2 then ELink [] else if ft <=? 5 then ESpecial ft else EOther ft.
-
-(* the per-entry dispatch of the walker (which operations / updates each file type produces, and in which order:
-   Size BEFORE the Copy operation is queued) is the model's act_of *)
-Theorem x_walker_dispatch_ok :
-  Forall (fun p => map wact_code (fst (act_of (mkW false false) (fun _ => false) ([], kind_of_ft (fst p), false))) = snd p)
-         x_walker_dispatch /\
-  map fst x_walker_dispatch = [0; 1; 2; 3; 4; 5; 6; 7].
-Proof. split; [vm_compute; repeat constructor|reflexivity]. Qed.
-
-(* the no-clobber check runs before the dispatch, stops the walk, and probes the target WITHOUT following links;
-   the walk follows links exactly when dereferencing and prunes with the ignore filter; `from` is the canonical path
-   exactly when dereferencing; the kind is taken from lstat(from); the target is target_base joined with the path
-   relative to the source.  (This is the text Walker.v was written against; an edit shows up here.) *)
-Theorem x_walker_shape_ok :
-  x_walker_noclobber_stops_before_dispatch = true /\
-  x_walker_noclobber_condition = "config.no_clobber&&target.symlink_metadata().is_ok()"%string /\
-  x_walker_iterator = (["WalkDir::new(&source)";
-   "follow_links(config.dereference)";
-   "into_iter()";
-   "filter_entry(|e|ignore_filter(e,&gitignore))"])%string /\
-  x_walker_entry_prelude = (["letepath=entry?.into_path();";
-   "letfrom=ifconfig.dereference{letcpath=canonicalize(&epath)?;debug!(""Dereferencing{:?}into{:?}"",epath,cpath);cpath}else{epath.clone()};";
-   "letmeta=from.symlink_metadata()?;";
-   "letpath=epath.strip_prefix(&source)?;";
-   "lettarget=if!empty_path(path){target_base.join(path)}else{target_base.clone()};";
-   "letft=FileType::from(meta.file_type());"])%string /\
-  x_walker_source_prelude = (["letsourcedir=source.components().next_back().ok_or(XcpError::InvalidSource(""Failedtofindsourcedirectoryname.""))?;";
-   "lettarget_base=ifdest.exists()&&dest.is_dir()&&!config.no_target_directory{dest.join(sourcedir)}else{dest.to_path_buf()};";
-   "letgitignore=parse_ignore(&source,config)?;"])%string.
-Proof. repeat split; reflexivity. Qed.
-
-(* ------------------------------------------------------------------ *)
-(* src/main.rs: the translated validation block is Main.validate        *)
-(* ------------------------------------------------------------------ *)
-From XcpModel Require Import Main.
-
-Section XV.
-  Variable exists_ is_dir : path -> bool.
-  Variable same_file : path -> path -> bool.
-  Variable o : opts.
-
-  Lemma x_check_sources_ok dest : forall ss seenM seenX,
-    (forall p, existsb (path_eqb p) seenM = existsb (path_eqb p) seenX) ->
-    x_check_sources exists_ is_dir same_file o dest seenX ss =
-    check_sources exists_ is_dir same_file o dest (exists_ dest && is_dir dest) seenM ss.
-  Proof.
-    induction ss as [|s r IH]; intros seenM seenX Hseen; [reflexivity|].
-    cbn [x_check_sources check_sources]. unfold check_source, target_base.
-    destruct (exists_ s); cbn [negb]; [|reflexivity].
-    destruct (is_dir s && negb (o_recursive o)); [reflexivity|].
-    destruct (path_eqb s dest); [reflexivity|].
-    destruct (last_comp s) as [c|]; [|reflexivity].
-    destruct c as [| | |n];
-      match goal with |- context [join dest ?cl] => set (jn := join dest cl) end;
-      set (tb := if exists_ dest && is_dir dest && negb (o_no_target_dir o) then jn else dest);
-      (assert ((if exists_ dest && is_dir dest && negb (o_no_target_dir o) then Some jn else Some dest) = Some tb) as ->
-          by (subst tb; destruct (exists_ dest && is_dir dest && negb (o_no_target_dir o)); reflexivity));
-      (destruct (path_eqb s tb || exists_ tb && same_file s tb); [reflexivity|]);
-      (destruct (is_dir s && exists_ tb && negb (is_dir tb)); [reflexivity|]);
-      rewrite (Hseen tb); (destruct (existsb (path_eqb tb) seenX); [reflexivity|]);
-      apply IH; intros p; rewrite existsb_app; cbn [existsb]; rewrite Hseen; rewrite orb_false_r; apply orb_comm.
-  Qed.
-
-  Theorem x_validate_ok : forall sources dest,
-    x_validate exists_ is_dir same_file o sources dest = validate exists_ is_dir same_file o sources dest.
-  Proof.
-    intros sources dest. unfold x_validate, validate.
-    destruct sources as [|s0 rest]; [reflexivity|].
-    rewrite <- (x_check_sources_ok dest (s0 :: rest) [] []) by reflexivity.
-    destruct (is_dir dest); cbn [negb andb]; [reflexivity|].
-    destruct rest as [|s1 rest']; cbn [List.length hd Nat.eqb Nat.ltb Nat.leb andb].
-    - destruct (is_dir s0 && exists_ dest); reflexivity.
-    - reflexivity.
-  Qed.
-End XV.
+(* ExtractedOk.v — umbrella over the per-topic files of the translator tie (XExtents, XBlocks, XUpdater, XLoops,
+   XReflink, XMeta, XOps, XBackup, XWalker, XMain, XConfig): the definitions that /verif/xlate regenerates from the
+   repository's CURRENT source on every run (theories/Extracted.v) are equal to the hand-written model's.  An edit
+   to one of the translated pieces of Rust changes Extracted.v and breaks the corresponding lemma (or, if the code
+   leaves the supported subset, the extraction and with it the lemma).  Property files import only the topic files
+   they cite, so a change only re-opens the obligations of the properties that depend on it. *)
+From XcpProofs Require Export XExtents XBlocks XUpdater XLoops XReflink XMeta XOps XBackup XWalker XMain XConfig.
